@@ -83,7 +83,7 @@ type c11gen struct {
 
 // req is c11req that remembers transport failures: such a case is reported as inconclusive, never as a verdict
 func (g *c11gen) req(addr, method, target string, hdr [][2]string, body []byte) (int, http.Header, []byte) {
-	code, h, rb := g.req(addr, method, target, hdr, body)
+	code, h, rb := c11req(addr, method, target, hdr, body)
 	if code == 0 {
 		g.bad = true
 	}
